@@ -122,7 +122,12 @@ func (c *Ctx) wrapInt(x Term, t types.Type) Term {
 	}
 	w := new(big.Int).Add(new(big.Int).Sub(hi, lo), big.NewInt(1))
 	if lo.Sign() == 0 {
-		return app(SInt, "mod", x, IntLit(SInt, w))
+		if ub, _, ok := c.bitsOf(x); ok && ub <= w.BitLen()-1 {
+			return x // already in range
+		}
+		r := app(SInt, "mod", x, IntLit(SInt, w))
+		c.setBits(r, w.BitLen()-1, 0)
+		return r
 	}
 	half := new(big.Int).Neg(lo)
 	return app(SInt, "-", app(SInt, "mod", app(SInt, "+", x, IntLit(SInt, half)), IntLit(SInt, w)), IntLit(SInt, half))
@@ -283,7 +288,15 @@ func (c *Ctx) intBinop(st *State, op token.Token, a, b Term, t types.Type, bt ty
 				}
 				return Term{"0", SInt}
 			}
-			return app(SInt, "div", a, IntLit(SInt, pow2(int(k.Int64()))))
+			r := app(SInt, "div", a, IntLit(SInt, pow2(int(k.Int64()))))
+			if ub, _, ok := c.bitsOf(a); ok && !signed {
+				nb := ub - int(k.Int64())
+				if nb < 0 {
+					nb = 0
+				}
+				c.setBits(r, nb, 0)
+			}
+			return r
 		}
 	case token.SHL:
 		if k, ok := litInt(b); ok && k.IsInt64() {
@@ -291,6 +304,11 @@ func (c *Ctx) intBinop(st *State, op token.Token, a, b Term, t types.Type, bt ty
 				return Term{"0", SInt}
 			}
 			x := app(SInt, "*", a, IntLit(SInt, pow2(int(k.Int64()))))
+			if ub, lz, ok := c.bitsOf(a); ok && !signed && ub+int(k.Int64()) <= w {
+				// no bits shifted out: exact without the wrap-around mod
+				c.setBits(x, ub+int(k.Int64()), lz+int(k.Int64()))
+				return x
+			}
 			return c.wrapInt(x, t)
 		}
 	case token.AND:
@@ -301,6 +319,23 @@ func (c *Ctx) intBinop(st *State, op token.Token, a, b Term, t types.Type, bt ty
 			return c.andConst(b, m, w, signed)
 		}
 	case token.OR:
+		if !signed {
+			// disjoint bit ranges: a | b == a + b
+			if ua, la, ok1 := c.bitsOf(a); ok1 {
+				if ub, lb, ok2 := c.bitsOf(b); ok2 && (la >= ub || lb >= ua) {
+					r := app(SInt, "+", a, b)
+					mx, mn := ua, la
+					if ub > mx {
+						mx = ub
+					}
+					if lb < mn {
+						mn = lb
+					}
+					c.setBits(r, mx, mn)
+					return r
+				}
+			}
+		}
 		if m, ok := litInt(b); ok && !signed {
 			return c.orConst(a, m, w)
 		}
@@ -336,6 +371,39 @@ func (c *Ctx) intBinop(st *State, op token.Token, a, b Term, t types.Type, bt ty
 		}
 	}
 	return app(SInt, name, a, b)
+}
+
+// bit-range tracking (int mode): a term with entry (ub, lz) is known to satisfy 0 <= t < 2^ub and t ≡ 0 (mod 2^lz).
+func (c *Ctx) bitsOf(t Term) (ub, lz int, ok bool) {
+	if v, isLit := litInt(t); isLit && v.Sign() >= 0 {
+		if v.Sign() == 0 {
+			return 0, 64, true
+		}
+		return v.BitLen(), int(v.TrailingZeroBits()), true
+	}
+	b, ok := c.bitInfo[t.S]
+	return b[0], b[1], ok
+}
+
+func (c *Ctx) setBits(t Term, ub, lz int) {
+	if c.bitInfo == nil {
+		c.bitInfo = map[string][2]int{}
+	}
+	c.bitInfo[t.S] = [2]int{ub, lz}
+}
+
+// noteUnsigned records the bit width of a value of unsigned Go type t.
+func (c *Ctx) noteUnsigned(x Term, t types.Type) {
+	if c.mode != ModeInt || t == nil {
+		return
+	}
+	if b, ok := t.Underlying().(*types.Basic); ok {
+		if w, signed, isInt := intInfo(b); isInt && !signed {
+			if _, _, have := c.bitsOf(x); !have {
+				c.setBits(x, w, 0)
+			}
+		}
+	}
 }
 
 func (c *Ctx) bit(x Term, k int) Term {
